@@ -15,7 +15,7 @@ DRV = os.path.join(VERIF, "harness", "collision_drv.cc")
 META = dict(
     engine="tlc-replay",
     technique="TLA+ spec ContactLattice.tla (planes, spheres, axis-parallel capsules and axis-aligned boxes as rounded "
-              "boxes with lengths in quarter units: signed distance, normal axis and sign, facing surfaces and the "
+              "boxes, axis-parallel cylinders and axis-aligned ellipsoids where their extent is reached on a centre line, with lengths in quarter units: signed distance, normal axis and sign, facing surfaces and the "
               "region of the nearest points are integers; placements of the moving geom, mj_forward and mj_geomDistance "
               "in both orders as actions) model-checked by TLC; every placement of the exhaustive state space and "
               "of simulated sequences of placements is replayed on a compiled model",
@@ -28,14 +28,19 @@ META = dict(
     note="Trusted: TLC, harness collision_drv.cc (frame orthonormality test at 1e-12), rendering of shapes as geoms "
          "(checks/c13.py: model_lines). Comparison tolerance 1e-9 (capsule colliders divide; capsule orientation comes "
          "from a fromto); for pairs whose mj_geomDistance goes through the convex (GJK) path the tolerance is the "
-         "model's ccd_tolerance. Oblique poses, edge/corner configurations with irrational distance, ellipsoids, "
-         "cylinders, meshes are not decided; additional contacts of a multi-contact pair are only checked for the "
+         "model's ccd_tolerance. Cylinders: sphere : cylinder with the sphere centre inside (nearest of cap and side), facing the cap, facing the "
+         "side; plane : cylinder upright and lying; capsule / cylinder / box : cylinder only with centres displaced along "
+         "the normal axis (convex collider: contact distance compared at 1e-5, normal at 2e-3, mj_geomDistance at "
+         "ccd_tolerance). Ellipsoids only against planes and spheres. Oblique poses, edge/corner configurations with "
+         "irrational distance, ellipsoid against other smooth or flat bodies, meshes are not decided; additional contacts of a multi-contact pair are only checked for the "
          "generic clauses.",
     ref="DESIGN.md section 4 C13")
 
 Q = 4.0                     # quarter units
 TOL = 1e-9
 CCD_TOL = 1e-6              # mjOption.ccd_tolerance default, written into the models explicitly
+CCD_DIST_TOL = 1e-5         # contacts of the convex collider: iteration-capped GJK on margin-smoothed shapes
+CCD_NORMAL_TOL = 2e-3       # ... and its multi-contact search tilts the normal by 1e-3 rad
 
 
 def num(x):
@@ -53,6 +58,13 @@ def geom_line(name, body, s, margin):
         p = [0, 0, 0]
         p[a] = h[a]
         g = "type=3 size=%s fromto=%s,%s,%s,%s,%s,%s" % ((num(r),) + tuple(num(-x) for x in p) + tuple(num(x) for x in p))
+    elif k == "cylinder":
+        a = s["ax"] - 1
+        p = [0, 0, 0]
+        p[a] = h[a]
+        g = "type=5 size=%s fromto=%s,%s,%s,%s,%s,%s" % ((num(h[(a + 1) % 3]),) + tuple(num(-x) for x in p) + tuple(num(x) for x in p))
+    elif k == "ellipsoid":
+        g = "type=4 size=%s,%s,%s" % (num(h[0]), num(h[1]), num(h[2]))
     else:
         g = "type=6 size=%s,%s,%s" % (num(h[0]), num(h[1]), num(h[2]))
     return "geom body=%s name=%s %s margin=%s" % (body, name, g, num(margin))
@@ -66,9 +78,20 @@ def model_lines(A, B, margin):
             geom_line("gA", "world", A, 0), geom_line("gB", "bB", B, margin)]
 
 
+def convex_pair(A, B):
+    """pairs whose collision function is the general convex collider mjc_Convex (native CCD: GJK/EPA); see the table
+    mjCOLLISIONFUNC: every pair with an ellipsoid except plane, and cylinder with capsule / cylinder / box"""
+    ks = {A["kind"], B["kind"]}
+    if "plane" in ks:
+        return False
+    if "ellipsoid" in ks:
+        return True
+    return "cylinder" in ks and not ks & {"sphere"}
+
+
 def ccd_pair(A, B):
-    """mj_geomDistance uses the convex pipeline for box : box (nativeccd)"""
-    return A["kind"] == "box" and B["kind"] == "box"
+    """mj_geomDistance goes through the convex pipeline for mjc_Convex pairs and for box : box"""
+    return convex_pair(A, B) or (A["kind"] == "box" and B["kind"] == "box")
 
 
 def parse_cinfo(line):
@@ -87,8 +110,9 @@ def close(a, b, tol=TOL):
     return abs(a - b) <= tol * max(1.0, abs(a), abs(b))
 
 
-def judge_forward(ev, margin, line):
-    """None or (class, detail)"""
+def judge_forward(ev, margin, line, convex=False):
+    """None or (class, detail); convex: the contact comes from the iterative convex collider"""
+    dtol, ntol, ptol = (CCD_DIST_TOL, CCD_NORMAL_TOL, CCD_NORMAL_TOL) if convex else (TOL, TOL, TOL)
     cs = parse_cinfo(line) if line is not None else None
     if cs is None:
         return "garbage", str(line)[:80]
@@ -108,20 +132,22 @@ def judge_forward(ev, margin, line):
         if c["dist"] > margin / Q + 1e-12:
             return "dist-above-margin", "contact dist %r > margin %r" % (c["dist"], margin / Q)
     dmin = min(c["dist"] for c in cs)
-    if not close(dmin, ev["dist"] / Q):
+    if not close(dmin, ev["dist"] / Q, dtol):
         return "distance", "nearest contact dist %r, specification %r" % (dmin, ev["dist"] / Q)
     want_n = [0.0, 0.0, 0.0]
     want_n[ev["axis"] - 1] = float(ev["sign"])
     reg = ev["region"]
     for c in cs:
-        if not close(c["dist"], dmin):
+        if not close(c["dist"], dmin, dtol):
             continue
-        if any(abs(c["n"][i] - want_n[i]) > TOL for i in range(3)):
+        if any(abs(c["n"][i] - want_n[i]) > ntol for i in range(3)):
             return "normal", "normal %r, specification %r (from %s to %s)" % (c["n"], want_n, first, second)
         for i in range(3):
             lo, hi = reg[2 * i] / Q, reg[2 * i + 1] / Q
-            if not (lo - TOL <= c["p"][i] <= hi + TOL):
+            if not (lo - ptol <= c["p"][i] <= hi + ptol):
                 return "position", "contact position %r outside the region %r of the nearest points" % (c["p"], [x / Q for x in reg])
+        if convex:
+            break           # further contacts of the convex collider come from tilting the normal by 1e-3 rad (multiccd)
     return None
 
 
@@ -156,8 +182,11 @@ def place_cmds(c):
     return ["setv 0 qpos %s,%s,%s" % (num(c[0]), num(c[1]), num(c[2])), "forward 0"]
 
 
+RANK = {"plane": 0, "sphere": 2, "capsule": 3, "ellipsoid": 4, "cylinder": 5, "box": 6}
+
+
 def pairname(A, B):
-    n = "%s-%s" % (A["kind"], B["kind"])
+    n = "-".join(sorted((A["kind"], B["kind"]), key=lambda k: RANK[k]))      # geom type order, as in the collision table
     if A["kind"] == "capsule" and B["kind"] == "capsule":
         ax = lambda s: max(range(3), key=lambda i: s["h"][i])
         n += "-parallel" if ax(A) == ax(B) else "-crossed"
@@ -195,7 +224,7 @@ def replay_models(ctx, exe, models, label):
         ml = model_lines(A, B, margin)
         line = r.lines[oi[li]] if oi[li] < len(r.lines) else None
         if kind == "forward":
-            mm = judge_forward(ev, margin, line)
+            mm = judge_forward(ev, margin, line, convex_pair(A, B))
         else:
             mm = judge_gdist(ev, line, CCD_TOL if ccd_pair(A, B) else TOL)
         ctx.case({"model": ml, "c": list(c), "cmd": lines[li]}, nontrivial=(kind == "gdist" or ev["reported"]),
@@ -208,12 +237,13 @@ def replay_models(ctx, exe, models, label):
         if line is None and r.crashed:
             sig, what = "crash", "harness died: " + r.crash_text()
         else:
-            pen = "penetrating" if ev["dist"] < 0 else "separated"
+            pen = ("centre-inside" if ev.get("deep") else "penetrating") if ev["dist"] < 0 else "separated"
             sig = "%s:%s:%s:%s" % (kind, cls, pairname(A, B), pen)
             what = "%s; pair %s with B centred at %s (units 1/4: A=%s B=%s margin=%s); command `%s` answered %r" % (
                 detail, pairname(A, B), [x / Q for x in c], tlc.to_py(A), tlc.to_py(B), margin, lines[li], (line or "")[:300])
         ctx.violation(sig, what, {"script": ["model 0"] + ml + ["end", "data 0 0"] + place_cmds(c) + [lines[li]],
-                                  "kind": kind, "ev": tlc.to_py(ev), "margin": margin, "ccd": ccd_pair(A, B)})
+                                  "kind": kind, "ev": tlc.to_py(ev), "margin": margin, "ccd": ccd_pair(A, B),
+                                  "convex": convex_pair(A, B)})
     return r, lines, checks
 
 
@@ -229,7 +259,10 @@ def _sel_sim(act, blk):
 
 def run(ctx):
     exe = build.build_harness("collision_drv", [DRV], extra=tladump.harness_digest_flag())
-    ctx.assume("geoms are planes, spheres, capsules along a coordinate axis and axis-aligned boxes; lengths are multiples of 1/4",
+    ctx.assume("geoms are planes, spheres, capsules and cylinders along a coordinate axis, axis-aligned boxes and ellipsoids; "
+               "lengths are multiples of 1/4",
+               "a sphere centre is off a cylinder's axis along at most one coordinate; other pairs with a cylinder or ellipsoid "
+               "are displaced along the normal axis only",
                "exactly one axis separates the cores, or a sphere centre / box lies inside a box with a unique nearest face",
                "no pair is exactly at its margin; margin is given to the moving geom, gap is 0",
                "tolerance 1e-9, and ccd_tolerance (1e-6) for mj_geomDistance of box : box (convex pipeline)")
@@ -274,7 +307,15 @@ def run(ctx):
         raise Machinery("vacuity: pair kinds without a reported contact: %s" % sorted(kinds_all - kinds_hit))
     for what, seen in {"a reported contact": any(e["reported"] for e in evs), "no contact": any(not e["reported"] for e in evs),
                        "a penetration": any(e["dist"] < 0 for e in evs),
-                       "a contact inside the margin": any(e["reported"] and e["dist"] > 0 for e in evs)}.items():
+                       "a contact inside the margin": any(e["reported"] and e["dist"] > 0 for e in evs),
+                       "a sphere centre inside a cylinder, cap nearest": any(
+                           e["deep"] and "cylinder" in (m[0]["kind"], m[1]["kind"]) and
+                           e["axis"] == (m[0] if m[0]["kind"] == "cylinder" else m[1])["ax"]
+                           for m in models.values() for e in m[3] if e["op"] == "forward"),
+                       "a sphere centre inside a cylinder, side nearest": any(
+                           e["deep"] and "cylinder" in (m[0]["kind"], m[1]["kind"]) and
+                           e["axis"] != (m[0] if m[0]["kind"] == "cylinder" else m[1])["ax"]
+                           for m in models.values() for e in m[3] if e["op"] == "forward")}.items():
         if not seen:
             raise Machinery("vacuity: exhaustive run without " + what)
     mlist = []
@@ -328,7 +369,7 @@ def replay(ctx, rp):
     ctx.case({"replay": rp["signature"]})
     ctx.case({"replay": rp["signature"], "x": 1})
     if rp["replay"]["kind"] == "forward":
-        mm = judge_forward(ev, rp["replay"]["margin"], line)
+        mm = judge_forward(ev, rp["replay"]["margin"], line, rp["replay"].get("convex", False))
     else:
         mm = judge_gdist(ev, line, CCD_TOL if rp["replay"]["ccd"] else TOL)
     if mm is not None:
